@@ -325,23 +325,22 @@ static_assert(sizeof(long double) == 16 && std::numeric_limits<long double>::dig
 void long_double_all()
 {
   using L = std::numeric_limits<long double>;
-  // Only values whose 6 low-order mantissa bytes are not all zero: those bytes are what a swapped
-  // long double loses when it is returned through an x87 register, so for these values the
-  // outcome does not depend on the (indeterminate) content of padding bytes.  For 0, 1, 2^k, inf
-  // the result depends on whether the padding happened to be zero; they are left out to keep
-  // every case's verdict reproducible.
+  // Only values whose 6 low-order mantissa bytes are all non-zero: those bytes are what a swapped
+  // long double loses when it is returned through an x87 register (they are replaced by whatever
+  // the padding of a temporary held).  For 0, 1, 2^k, inf, 1+eps the result depends on whether that
+  // indeterminate padding happened to be zero / a small integer; such values are left out to keep
+  // every case's verdict reproducible (first run vs. replay).
   std::vector<long double> vals;
   for (long double x : {0.1L, 0.7L, 1.2345678901234567890L, 3.14159265358979323846264338327950288L, 2.71828182845904523536028747135266250L,
-                        1.41421356237309504880168872420969808L, L::max(), L::denorm_min(), 1.0L + L::epsilon(), 1e100L, 1e-100L, 1e4000L,
-                        1e-4000L, 18446744073709551615.0L, 0.333333333333333333333L, 123456789.123456789L, 1.0L + 0x1p-40L,
-                        1.0L + 0x1p-17L + 0x1p-63L})
+                        1.41421356237309504880168872420969808L, L::max(), 1e100L, 1e-100L, 1e4000L, 1e-4000L, 18446744073709551615.0L,
+                        0.333333333333333333333L, 123456789.123456789L, 0.9L, 1e10L / 3.0L})
   {
     unsigned char b[10];
     std::memcpy(b, &x, 10);
-    if ((b[0] | b[1] | b[2] | b[3] | b[4] | b[5]) != 0)
+    if (b[0] && b[1] && b[2] && b[3] && b[4] && b[5])
       vals.push_back(x);
     else
-      vrt::fail("harness:long_double_domain", vrt::fmt("%.21Lg has zero low mantissa bytes", x));
+      vrt::fail("harness:long_double_domain", vrt::fmt("%.21Lg has a zero byte among its low mantissa bytes", x));
   }
   auto same = [](long double a, long double b) { return (std::isnan(a) && std::isnan(b)) || (a == b && std::signbit(a) == std::signbit(b)); };
   for (unsigned i = 0; i < vals.size(); ++i)
